@@ -1,5 +1,6 @@
 """C14 — nice() only widens a domain, by less than two tick steps, to round end points."""
 import ast
+import re
 
 from .util import *
 from . import state as statepack
@@ -187,6 +188,7 @@ def time_nice(ctx, R):
     P = ctx.P
     f = P.func(TS + ".nice")
     R.saw(f, P.func("scale.time_nice_floor"), P.func("scale.time_nice_ceil"))
+    pred_quals = set()
     for skip_gt1 in (False, True):
         for order in ("lt", "gt"):
             ev, st, r, log, doms = run_time_nice(ctx, order, skip_gt1)
@@ -204,6 +206,16 @@ def time_nice(ctx, R):
                 G = lambda d: "INTERVAL.ceil(%s)" % d
             want = [F("D0"), G("D1")] if order == "lt" else [G("D0"), F("D1")]
             got = [key(x) for x in val.items] if isinstance(val, Seq) else [key(val)]
+            if skip_gt1:
+                # the predicate handed to both helpers is a function nested in nice(), whatever it is called
+                preds = set()
+                for gk in got:
+                    m_ = re.match(r"^scale\.time_nice_(?:floor|ceil)\(D[01], <fn (%s\.nice\.[\w<>#]+)>, INTERVAL\)$" % re.escape(TS), gk)
+                    if m_:
+                        preds.add(m_.group(1))
+                if len(preds) == 1:
+                    pred_quals.add(next(iter(preds)))
+                    want = [w.replace("<fn %s.nice.skipped>" % TS, "<fn %s>" % next(iter(preds))) for w in want]
             R.check(got == want, "C14.TIME", tag + " value", where(f), "stores %s" % want, "nice() stores %s, expected %s (floor on the earlier end, ceil on the later, orientation kept)" % (got, want))
     # skipped(date)
     ev, st, r, log, doms = run_time_nice(ctx, "lt", True)
@@ -212,12 +224,13 @@ def time_nice(ctx, R):
     for e in st.events:
         pass
     g = [x for x in P.nested(f) if not x.is_lambda]
-    skf = next((x for x in g if x.name == "skipped"), None)
+    skf = next((x for x in g if x.qual in pred_quals), None) if len(pred_quals) == 1 else None
     if skf is None:
-        R.bad("C14.TIME", "skipped", where(f), "no nested predicate `skipped` in TimeScale.nice")
+        R.bad("C14.TIME", "skipped", where(f), "no nested predicate `skipped` in TimeScale.nice (a function of nice() handed to both time_nice_floor and time_nice_ceil)")
     else:
         ev2 = new_eval(P, opaque=["scale.dt2milli", "scale.milli2dt"])
-        env = Env({"interval": Opaque("INTERVAL", kind="obj"), "skip": Num.atom("SKIP")}, ev2.module_env("scale"), "scale", f)
+        p_int, p_skip = (f.params[1], f.params[2]) if len(f.params) > 2 else ("interval", "skip")  # nice(self, interval, skip)
+        env = Env({p_int: Opaque("INTERVAL", kind="obj"), p_skip: Num.atom("SKIP")}, ev2.module_env("scale"), "scale", f)
         st2 = State(Env({}, env, "scale", skf))
         ev2.assume("cmp(is, date, None)", False)
         got = ev2.call_closure(Closure(skf, env), [Opaque("date")], {}, st2)
